@@ -48,7 +48,7 @@ func rproducer(ch chan int, items []int, seed int64) {
 
 // RunReal executes the configuration on the real runtime and checks the observable clauses.
 // The second result lists violated clauses (a timeout counts as a deadlock).
-func RunReal(F *RFuncs, c Config, r *rand.Rand) (*Outcome, []string) {
+func RunReal(F *RFuncs, c Config, r *rand.Rand) (*Outcome, []string, []string) {
 	o := &Outcome{}
 	nOut := 1
 	if c.Sys == "dup" {
@@ -172,6 +172,13 @@ func RunReal(F *RFuncs, c Config, r *rand.Rand) (*Outcome, []string) {
 		if c.NilSlice && len(ins) == 0 {
 			ins = nil
 		}
+		if c.Slice != nil {
+			sl := make([]chan int, len(c.Slice))
+			for p, j := range c.Slice {
+				sl[p] = ins[j]
+			}
+			ins = sl
+		}
 		consume(0, F.JoinSC[c.Variant](ins))
 	case "joinsel":
 		ins := mkIns()
@@ -233,10 +240,7 @@ func RunReal(F *RFuncs, c Config, r *rand.Rand) (*Outcome, []string) {
 						<-rv[p]
 					}
 				}
-				if c.Errs[i] != 0 {
-					return DoVal(i), DoErr(c.Errs[i])
-				}
-				return DoVal(i), nil
+				return DoVal(i), DoErrOf(c.Errs[i])
 			}
 		}
 		wg.Add(1)
@@ -253,13 +257,7 @@ func RunReal(F *RFuncs, c Config, r *rand.Rand) (*Outcome, []string) {
 				o.DoVals[0], o.DoVals[1], o.DoVals[2], o.DoVals[3], err = F.Do4(fs[0], fs[1], fs[2], fs[3])
 			}
 			o.DoRet = true
-			if err != nil {
-				if de, ok := err.(DoErr); ok {
-					o.DoErr = int(de)
-				} else {
-					o.DoErr = -1
-				}
-			}
+			o.DoErr = DoErrCode(err)
 		}()
 	}
 	done := make(chan struct{})
@@ -267,13 +265,17 @@ func RunReal(F *RFuncs, c Config, r *rand.Rand) (*Outcome, []string) {
 	select {
 	case <-done:
 	case <-time.After(10 * time.Second):
-		return o, []string{"deadlock or livelock: consumers / Do still blocked after 10 s on the real runtime"}
+		what := "deadlock or livelock: consumers still blocked after 10 s on the real runtime"
+		if c.Sys == "do" {
+			what = "deadlock: Do has not returned after 10 s on the real runtime (functions that wait for one another never all run)"
+		}
+		return o, []string{what}, nil
 	}
-	var bad []string
+	var bad, pending []string
 	if c.Sys == "do" {
 		bad = CheckDo(c, o, nil)
 	} else {
-		bad = CheckDelivery(c, o)
+		bad, pending = CheckDelivery(c, o)
 	}
 	// every goroutine started by the emitted code and the environment must be gone
 	leaked := true
@@ -293,7 +295,7 @@ func RunReal(F *RFuncs, c Config, r *rand.Rand) (*Outcome, []string) {
 	if leaked {
 		bad = append(bad, fmt.Sprintf("goroutines left running: %d before the call, %d afterwards", base, runtime.NumGoroutine()))
 	}
-	return o, bad
+	return o, bad, pending
 }
 
 // MainR is the main function of the generated program cmd/racerun (built with -race).
@@ -318,6 +320,8 @@ func MainR(F *RFuncs) {
 	sum := struct {
 		Systems    map[string]*stats `json:"systems"`
 		Violations []viol            `json:"violations"`
+		Pending    []viol            `json:"pending"`
+		PendingN   int               `json:"pending_count"`
 		Executions int               `json:"executions"`
 		Procs      []int             `json:"gomaxprocs"`
 	}{Systems: map[string]*stats{}, Procs: []int{1, 2, 4, 8}}
@@ -337,9 +341,15 @@ func MainR(F *RFuncs) {
 		st.Configs++
 		for i := 0; i < reps; i++ {
 			runtime.GOMAXPROCS(sum.Procs[(sum.Executions+i)%len(sum.Procs)])
-			_, bad := RunReal(F, c, rng)
+			_, bad, pend := RunReal(F, c, rng)
 			st.Executions++
 			sum.Executions++
+			if len(pend) > 0 {
+				sum.PendingN++
+				if len(sum.Pending) < 3 {
+					sum.Pending = append(sum.Pending, viol{c, pend})
+				}
+			}
 			if len(bad) > 0 {
 				if len(sum.Violations) < 10 {
 					sum.Violations = append(sum.Violations, viol{c, bad})
@@ -384,6 +394,11 @@ func MainR(F *RFuncs) {
 			if sys != "do" {
 				for _, c := range PrefillConfigs(sys) {
 					runCfg(c, 4*reps)
+				}
+			}
+			if sys == "joinsc" {
+				for _, c := range DupSliceConfigs(3, 2) {
+					runCfg(c, reps)
 				}
 			}
 			for i := 0; i < nc; i++ {
